@@ -17,7 +17,7 @@ from .. import build, sp
 ID = "C13"
 META = {
     "technique": "runtime monitoring: icontract word-conservation postcondition on parse_single_name_into_parts + differential against a corpus-validated transcription of the stated rules; error-containment monitor on SplitNameParts",
-    "level_text": "Every token sequence up to the bound over the name alphabet (upper/lower/caseless words, brace groups, special characters, escapes, commas, space, ~, lone braces) is parsed by the real function: valid names must keep every top-level word once per comma section (icontract postcondition) and match the reference partition (word case = transcription of BibTeX's von_token_found: special characters at depth 0 only, decided at the first special character, 13 foreign characters, letters without case decide nothing); a bounded-exhaustive word-case family (51 words x 3 forms) drives nested groups, foreign characters, letterless special characters and CJK/Arabic/Hebrew words; invalid names must raise InvalidNameError and become a MiddlewareErrorBlock retaining the entry with ALL its name fields untouched (valid name fields before and after the invalid one). The reference is validated on the repository's 149-name corpus at the start of every run.",
+    "level_text": "Every token sequence up to the bound over the name alphabet (upper/lower/caseless words, brace groups, special characters, escapes, commas, space, ~, lone braces) is parsed by the real function: valid names must keep every top-level word once per comma section (icontract postcondition) and match the reference partition (word case = transcription of BibTeX's von_token_found: special characters at depth 0 only, decided at the first special character, 13 foreign characters, letters without case decide nothing); a bounded-exhaustive word-case family (51 words x 3 forms) drives nested groups, foreign characters, letterless special characters and CJK/Arabic/Hebrew words; invalid names must raise InvalidNameError and become a MiddlewareErrorBlock retaining the entry with ALL its name fields untouched (valid name fields before and after the invalid one). The reference is validated on the repository's 149-name corpus at the start of every run. The word pool includes brace groups containing every kind of white space.",
     "level_note": "escapes are the library's dialect (an escaped character is never a brace, blank or comma); no name is excluded from the partition comparison",
 }
 RULE = ("case = one name string: all token sequences <= L over the name alphabet + random names of 1-8 words; non-trivial = a valid name with >= 3 words "
